@@ -23,15 +23,21 @@ def grammar_labels(which):
         if not isinstance(fn, ast.FunctionDef):
             continue
         for n in ast.walk(fn):
-            if isinstance(n, ast.Call) and getattr(n.func, 'id', None) == 'CombinatorResult':
-                kw = {k.arg: k.value for k in n.keywords}
-                s1, s2 = kw.get('op_string'), kw.get('op_symbol')
-                if isinstance(s1, ast.Constant) and isinstance(s2, ast.Constant):
-                    (unary if fn.name == 'apply_unary_rules' else binary).add((s1.value, s2.value))
-                elif isinstance(s1, ast.IfExp) and isinstance(s2, ast.Constant):
-                    for alt in (s1.body, s1.orelse):
-                        if isinstance(alt, ast.Constant):
-                            unary.add((alt.value, s2.value))
+            if not isinstance(n, ast.Call):
+                continue
+            # a result built directly (keywords op_string / op_symbol) or through a helper taking label and symbol as two consecutive string literals
+            kw = {k.arg: k.value for k in n.keywords}
+            s1, s2 = kw.get('op_string'), kw.get('op_symbol')
+            if isinstance(s1, ast.Constant) and isinstance(s2, ast.Constant):
+                (unary if fn.name == 'apply_unary_rules' else binary).add((s1.value, s2.value))
+            elif isinstance(s1, ast.IfExp) and isinstance(s2, ast.Constant):
+                for alt in (s1.body, s1.orelse):
+                    if isinstance(alt, ast.Constant):
+                        unary.add((alt.value, s2.value))
+            if not isinstance(n.func, ast.Attribute) and getattr(n.func, 'id', '') not in ('Unification', 'print'):
+                for a, b in zip(n.args, n.args[1:]):
+                    if isinstance(a, ast.Constant) and isinstance(b, ast.Constant) and isinstance(a.value, str) and isinstance(b.value, str):
+                        (unary if fn.name == 'apply_unary_rules' else binary).add((a.value, b.value))
         if fn.name == '_unary_rule_symbol':
             for n in ast.walk(fn):
                 if isinstance(n, ast.Return) and isinstance(n.value, ast.Constant):
